@@ -190,3 +190,53 @@ Proof.
     exact (crun_inv mf_conv mf_conv_tiles ss_empty Hg Hf c18_history _ c Hops (cx_init_inv ss_empty _ [] 0%N Hg Hf Hd) Hrun).
   - repeat split; try assumption. intros E. rewrite E in Hkb. discriminate.
 Qed.
+
+(* ... and with a non-empty buffer below the limit the character is inserted exactly at the cursor (half-width form):
+   the cursor advances by one, nothing is committed, the key is absorbed *)
+Theorem C18_handle_Default_inserts_the_character_in_English_mode : forall conv ss0 (c : cctx) ch c',
+  CInv ss0 c -> cx_kb c <> kb_DvorakOnQwerty -> (32 <= ch <= 126)%N ->
+  st (cx_ed c) = Entering ->
+  (0 < chewing_buffer_Len c < Z.of_nat (o_threshold (opts (sh (cx_ed c)))))%Z ->
+  o_english (opts (sh (cx_ed c))) = true -> o_fullwidth (opts (sh (cx_ed c))) = false ->
+  cstep conv c (CDefault (Z.of_N ch)) = Ok c' ->
+  symbols (inner (com (sh (cx_ed c')))) = insert_at (cursor (com (sh (cx_ed c)))) (SymChar ch) (symbols (inner (com (sh (cx_ed c))))) /\
+  chewing_cursor_Current c' = (chewing_cursor_Current c + 1)%Z /\ chewing_buffer_Len c' = (chewing_buffer_Len c + 1)%Z /\
+  chewing_commit_Check c' = 0%Z /\ chewing_keystroke_CheckAbsorb c' = 1%Z /\ opts (sh (cx_ed c')) = opts (sh (cx_ed c)).
+Proof.
+  intros conv ss0 c ch c' Hc Hkb Hch Hst Hlen Hen Hfw H. pose proof Hc as [[[W _ _ _] _] Hk].
+  destruct (C18_handle_Default_builds_the_character_event (cx_kb c) ch Hk Hkb Hch) as (ev & Hev & Hcode & Huni & Hctrl & Hcaps & Hnum & Hsp).
+  cbn [cstep] in H. unfold handle_default in H.
+  assert (Hsel : is_selecting_b (cx_ed c) = false) by (unfold is_selecting_b; now rewrite Hst). rewrite Hsel in H.
+  assert (Hu8 : u8_of (Z.of_N ch) = ch). { unfold u8_of. rewrite Z.mod_small by lia. apply N2Z.id. } rewrite Hu8, Hev in H.
+  unfold press, ml_key, process_keyevent in H. rewrite Hst in H.
+  set (s0 := set_notice (set_lifetime (sh (cx_ed c)) (lifetime (sh (cx_ed c)) + 1)%N) []) in *.
+  set (s1 := set_commit s0 []) in *.
+  assert (Ho : opts s1 = opts (sh (cx_ed c))) by reflexivity.
+  assert (Hcom : com s1 = com (sh (cx_ed c))) by reflexivity.
+  unfold chewing_buffer_Len, chewing_cursor_Current, chewing_commit_Check, chewing_keystroke_CheckAbsorb, flag, c_flags in *.
+  cbn [List.nth] in *.
+  assert (He : ce_is_empty (com s1) = false).
+  { rewrite Hcom. unfold ce_is_empty. apply Nat.eqb_neq. lia. }
+  rewrite (C18_english_key _ _ mdf_ops lay_ops conv s1 (of_key_event ev) Hcode Hctrl Hcaps Hnum) in H.
+  2: { rewrite Hsp. reflexivity. }
+  2: { now rewrite Ho. }
+  rewrite Ho, Hfw, Huni in H. cbn [negb] in H.
+  destruct (commit_or_insert s1 ch) as [[s2 t]| | |] eqn:Eci; cbn [obind] in H; try discriminate.
+  assert (W1 : wf_ce (com s1)) by (rewrite Hcom; exact W).
+  destruct (C18_commit_or_insert _ _ s1 ch s2 t W1 Eci) as [(He' & _)|((_ & -> & Hsym & Hcur & Hcb) & Hsy & Hd & Hop & Hnth)]; [congruence|].
+  cbn [fst snd apply_transition is_entering last set_last behavior_eqb andb] in H.
+  assert (Hlen2 : ce_len (com s2) = S (ce_len (com (sh (cx_ed c))))).
+  { unfold ce_len, clen. rewrite Hsym, Hcom. apply length_insert_at. destruct W as [_ Wc]. unfold ce_len, clen in Wc. lia. }
+  unfold try_auto_commit in H. cbn [com set_last opts] in H.
+  assert (Hle : Nat.leb (ce_len (com s2)) (o_threshold (opts s2)) = true).
+  { apply Nat.leb_le. rewrite Hlen2, Hop, Ho. lia. }
+  rewrite Hle in H. cbn [obind] in H. inversion H; subst c'; clear H. cbn [fst cx_ed with_ed sh].
+  assert (F : forall x : shared memdict lay, com (flush_dirty x) = com x /\ commit_buf (flush_dirty x) = commit_buf x /\
+                                            last (flush_dirty x) = last x /\ opts (flush_dirty x) = opts x).
+  { intros x. unfold flush_dirty. destruct (N.ltb 0 (dirty x)); cbn; auto. }
+  destruct (F (set_last s2 BAbsorb)) as (F1 & F2 & F3 & F4). rewrite F1, F2, F3, F4. cbn [com set_last commit_buf last opts].
+  rewrite Hsym, Hcur, Hcb, Hcom, Hop, Ho.
+  replace (ce_len (com s2)) with (S (ce_len (com (sh (cx_ed c))))) by (symmetry; exact Hlen2).
+  cbn. repeat split; try reflexivity; lia.
+Qed.
+Print Assumptions C18_handle_Default_inserts_the_character_in_English_mode.
